@@ -43,6 +43,7 @@ func setup(c *casket.Controller) error {
 		Root:    cfg.Root,
 		FileSys: http.Dir(cfg.Root),
 		Configs: mdconfigs,
+		Hide:    cfg.HiddenFiles,
 	}
 
 	cfg.AddMiddleware(func(next httpserver.Handler) httpserver.Handler {
